@@ -105,7 +105,6 @@ Ltac sx_atom :=
   | |- exec ?p ?x ?f ?s ?en = _ => rewrite (exec_eq p x f s en)
   end; cbv beta iota; sx_cbn; reflexivity.
 
-Ltac sx_eval := sx_cbn; reflexivity.
 
 (* decide the condition of an `if z =? 0`: b2z / negb / literal comparisons, booleans from the hypotheses *)
 Ltac sx_decide :=
@@ -115,6 +114,13 @@ Ltac sx_decide :=
                            end;
                     sx_known; cbn [negb b2z Z.eqb]));
   cbv beta iota.
+
+(* value of a condition: by computation; a short-circuit && / || whose left operand is a comparison of symbolic
+   values is decided from the hypotheses first *)
+Ltac sx_eval :=
+  sx_cbn;
+  first [ reflexivity
+        | sx_decide; sx_cbn; first [ reflexivity | sx_decide; sx_cbn; reflexivity ] ].
 
 Ltac sx :=
   lazymatch goal with
